@@ -160,8 +160,8 @@ theorem agree_left (h : Sep l r) : AgreeOn (fun n => n.id < l.next) l (connected
   closed e he ho i hi := h.l_id (nodes3_ein (edge_into_left h he ho) hi)
 
 theorem den_left (h : Sep l r) {n : BNode} (hn : n.id < l.next) (t : BTerm) :
-    Den (connected l r) n t ↔ Den l n t :=
-  Den.frame (agree_left h) hn t
+    BDen (connected l r) n t ↔ BDen l n t :=
+  BDen.frame (agree_left h) hn t
 
 end
 end CM
